@@ -640,12 +640,12 @@ pub fn run(ctx: &mut Ctx) {
 			LongCase { string: apply_edit(&s, edit) }
 		})
 	};
-	ctx.run_sub("long_members_and_neighbours", ctx.tier.pick(40_000, 2_000_000), long, long_case);
-	ctx.run_sub("structures_print_parse", ctx.tier.pick(20_000, 400_000), || (proptest::collection::vec(rtype_strategy(), 0..5), proptest::option::of(rtype_strategy())).prop_map(|(params, ret)| StructCase { params, ret }), structure_case);
+	ctx.run_sub("long_members_and_neighbours", ctx.tier.pick(40000, 4000000), long, long_case);
+	ctx.run_sub("structures_print_parse", ctx.tier.pick(20000, 800000), || (proptest::collection::vec(rtype_strategy(), 0..5), proptest::option::of(rtype_strategy())).prop_map(|(params, ret)| StructCase { params, ret }), structure_case);
 	let part = || "[a-zA-Z0-9_$]{1,8}";
 	ctx.run_sub(
 		"inner_class_join_split",
-		ctx.tier.pick(20_000, 400_000),
+		ctx.tier.pick(20000, 800000),
 		move || ((proptest::collection::vec(part(), 1..4), "[a-zA-Z0-9_]{1,8}").prop_map(|(p, i)| JoinCase { parent: p.join("/"), inner: i })),
 		join_case,
 	);
